@@ -369,6 +369,14 @@ func (c *c01) exec(p *Project, o Opts, plan []simrt.PlannedFault, seed uint64) (
 	if r.SoftHit {
 		c.st.SoftHit++
 	}
+	if os.Getenv("SIM_DEBUG_HEAVY") != "" && (r.SoftHit || d.Calls > 1000) {
+		fmt.Fprintf(os.Stderr, "HEAVY calls=%d ticks=%d bytes=%d files=%d plan=%v root=%s\n", d.Calls, r.Ticks, p.totalBytes(), len(p.Files), plan, p.Root)
+		if os.Getenv("SIM_DEBUG_HEAVY") == "2" {
+			for k, v := range projectText(p) {
+				fmt.Fprintf(os.Stderr, "--- %s\n%s\n", k, v)
+			}
+		}
+	}
 	if tb := float64(r.Ticks) / float64(p.totalBytes()+200); tb > c.st.MaxTicksPerByte {
 		c.st.MaxTicksPerByte = tb
 	}
